@@ -2,14 +2,242 @@ import GluonModel.Surf
 namespace GluonModel.Surf.Proofs
 open GluonModel.Surf
 
+/-- The four "fuel `n` is below fuel `m`" statements, in the form
+    "either out of fuel at `n`, or same answer at `m`". -/
+private def Below (n m : Nat) : Prop :=
+  (∀ env e, eval n env e = .error .fuel ∨ eval n env e = eval m env e) ∧
+  (∀ env es, evalList n env es = .error .fuel ∨ evalList n env es = evalList m env es) ∧
+  (∀ env v alts, evalAlts n env v alts = .error .fuel ∨ evalAlts n env v alts = evalAlts m env v alts) ∧
+  (∀ f args, apply n f args = .error .fuel ∨ apply n f args = apply m f args)
+
+/-- use an induction hypothesis on a sub-call: either it ran out of fuel (and then so does the
+    whole), or rewrite it to the larger fuel -/
+local macro "sub " h:term : tactic =>
+  `(tactic| (have hh := $h; rcases hh with h1 | h1; (· simp [h1]); rw [h1]; clear h1))
+
+private theorem below_succ {n m : Nat} (ih : Below n m) : Below (n + 1) (m + 1) := by
+  obtain ⟨ihE, ihL, ihA, ihP⟩ := ih
+  refine ⟨?_, ?_, ?_, ?_⟩
+  · intro env e
+    cases e with
+    | int k => simp [eval]
+    | str s => simp [eval]
+    | var x => simp [eval]
+    | lam xs body => simp [eval]
+    | app f args =>
+      simp only [eval]
+      sub ihE env f
+      split
+      · simp
+      · sub ihL env args
+        split
+        · simp
+        · exact ihP _ _
+    | let_ p e₁ e₂ =>
+      simp only [eval]
+      sub ihE env e₁
+      split
+      · simp
+      · split
+        · exact ihE _ _
+        · simp
+    | letrec binds body =>
+      simp only [eval]
+      exact ihE _ _
+    | ite c a b =>
+      simp only [eval]
+      sub ihE env c
+      split
+      · simp
+      · exact ihE _ _
+      · exact ihE _ _
+      · simp
+    | prim op a b =>
+      simp only [eval]
+      sub ihE env a
+      split
+      · simp
+      · sub ihE env b
+        split <;> simp
+      · simp
+    | and_ a b =>
+      simp only [eval]
+      sub ihE env a
+      split
+      · simp
+      · simp
+      · exact ihE _ _
+      · simp
+    | or_ a b =>
+      simp only [eval]
+      sub ihE env a
+      split
+      · simp
+      · simp
+      · exact ihE _ _
+      · simp
+    | ctor tag arity => simp [eval]
+    | match_ s alts =>
+      simp only [eval]
+      sub ihE env s
+      split
+      · simp
+      · exact ihA _ _ _
+    | record fields base layout =>
+      simp only [eval]
+      sub ihL env fields
+      split
+      · simp
+      · split
+        · simp
+        · rename_i be
+          sub ihE env be
+          split <;> simp
+    | proj e i =>
+      simp only [eval]
+      sub ihE env e
+      split <;> simp
+    | array es =>
+      simp only [eval]
+      sub ihL env es
+      split <;> simp
+    | error msg => simp [eval]
+  · intro env es
+    cases es with
+    | nil => simp [evalList]
+    | cons e es =>
+      simp only [evalList]
+      sub ihE env e
+      split
+      · simp
+      · sub ihL env es
+        split <;> simp
+  · intro env v alts
+    cases alts with
+    | nil => simp [evalAlts]
+    | cons a alts =>
+      obtain ⟨p, e⟩ := a
+      simp only [evalAlts]
+      split
+      · exact ihE _ _
+      · exact ihA _ _ _
+  · intro f args
+    cases args with
+    | nil => simp [apply]
+    | cons a as =>
+      cases f with
+      | clos params body cenv =>
+        simp only [apply]
+        split
+        · simp
+        · generalize bindParams _ _ _ = env'
+          sub ihE env' body
+          split
+          · simp
+          · exact ihP _ _
+      | recclos group idx cenv =>
+        simp only [apply]
+        split
+        · simp
+        · split
+          · rename_i body _ _
+            sub ihE (recEnv group cenv) body
+            split
+            · simp
+            · exact ihP _ _
+          · split
+            · simp
+            · rename_i body _ _ _
+              generalize bindParams _ _ _ = env'
+              sub ihE env' body
+              split
+              · simp
+              · exact ihP _ _
+      | ctorfn tag arity =>
+        simp only [apply]
+        split
+        · simp
+        · split <;> simp
+      | pap g args₀ =>
+        simp only [apply]
+        exact ihP _ _
+      | int k => simp [apply]
+      | str s => simp [apply]
+      | data t fs => simp [apply]
+      | arr xs => simp [apply]
+
+private theorem below_zero (m : Nat) : Below 0 m := by
+  refine ⟨?_, ?_, ?_, ?_⟩ <;> intros <;> left
+  · simp [eval]
+  · simp [evalList]
+  · simp [evalAlts]
+  · simp [apply]
+
+private theorem below_add (n d : Nat) : Below n (n + d) := by
+  induction n with
+  | zero => exact below_zero _
+  | succ n ih =>
+    have : n + 1 + d = (n + d) + 1 := by omega
+    rw [this]
+    exact below_succ ih
+
+private theorem below_of_le {n m : Nat} (h : n ≤ m) : Below n m := by
+  obtain ⟨d, rfl⟩ := Nat.exists_eq_add_of_le h
+  exact below_add n d
+
 theorem eval_fuel_mono (n m : Nat) (env : Env) (e : Expr) (r : Res)
     (h : eval n env e = r) (hr : r ≠ .error .fuel) (hm : n ≤ m) : eval m env e = r := by
-  sorry
+  rcases (below_of_le hm).1 env e with h1 | h1
+  · exact absurd (h.symm.trans h1) hr
+  · exact h1.symm.trans h
+
+private theorem evalList_fuel_mono (n m : Nat) (env : Env) (es : List Expr)
+    (r : Except Err (List Val))
+    (h : evalList n env es = r) (hr : r ≠ .error .fuel) (hm : n ≤ m) : evalList m env es = r := by
+  rcases (below_of_le hm).2.1 env es with h1 | h1
+  · exact absurd (h.symm.trans h1) hr
+  · exact h1.symm.trans h
 
 theorem eval_deterministic (n m : Nat) (env : Env) (e : Expr) (r₁ r₂ : Res)
     (h₁ : eval n env e = r₁) (h₂ : eval m env e = r₂)
     (hr₁ : r₁ ≠ .error .fuel) (hr₂ : r₂ ≠ .error .fuel) : r₁ = r₂ := by
-  sorry
+  rcases Nat.le_total n m with hle | hle
+  · exact (eval_fuel_mono n m env e r₁ h₁ hr₁ hle).symm.trans h₂
+  · exact h₁.symm.trans (eval_fuel_mono m n env e r₂ h₂ hr₂ hle)
+
+private theorem evalList_first_failure (k : Nat) (env : Env) (bad : Expr) (post : List Expr)
+    (err : Err) (hbad : eval k env bad = .error err) (herr : err ≠ .fuel) :
+    ∀ (pre : List Expr) (vs : List Val) (j : Nat), evalList k env pre = .ok vs →
+      k + pre.length + 1 ≤ j → evalList j env (pre ++ bad :: post) = .error err := by
+  intro pre
+  induction pre with
+  | nil =>
+    intro vs j _ hj
+    obtain ⟨j', rfl⟩ : ∃ j', j = j' + 1 := ⟨j - 1, by simp at hj; omega⟩
+    have hb : eval j' env bad = .error err :=
+      eval_fuel_mono k j' env bad _ hbad (by simpa using herr) (by simp at hj; omega)
+    simp [evalList, hb]
+  | cons p ps ih =>
+    intro vs j hpre hj
+    obtain ⟨j', rfl⟩ : ∃ j', j = j' + 1 := ⟨j - 1, by omega⟩
+    obtain ⟨k', rfl⟩ : ∃ k', k = k' + 1 := by
+      cases k with
+      | zero => simp [evalList] at hpre
+      | succ k' => exact ⟨k', rfl⟩
+    simp only [evalList] at hpre
+    simp only [List.length_cons] at hj
+    split at hpre
+    · cases hpre
+    · rename_i v hp
+      split at hpre
+      · cases hpre
+      · rename_i vs' hps
+        have hp' : eval j' env p = .ok v :=
+          eval_fuel_mono k' j' env p _ hp (by simp) (by omega)
+        have hps' : evalList (k' + 1) env ps = .ok vs' :=
+          evalList_fuel_mono k' (k' + 1) env ps _ hps (by simp) (by omega)
+        have := ih vs' j' hps' (by omega)
+        simp [evalList, hp', this]
 
 theorem app_args_left_to_right (k n : Nat) (env : Env) (f : Expr) (fv : Val)
     (pre : List Expr) (bad : Expr) (post : List Expr) (vs : List Val) (err : Err)
@@ -17,11 +245,39 @@ theorem app_args_left_to_right (k n : Nat) (env : Env) (f : Expr) (fv : Val)
     (hpre : evalList k env pre = .ok vs) (hbad : eval k env bad = .error err)
     (herr : err ≠ .fuel) (hn : k + pre.length + 1 ≤ n) :
     eval (n + 1) env (.app f (pre ++ bad :: post)) = .error err := by
-  sorry
+  have hf' : eval n env f = .ok fv := eval_fuel_mono k n env f _ hf (by simp) (by omega)
+  have hl := evalList_first_failure k env bad post err hbad herr pre vs n hpre hn
+  simp [eval, hf', hl]
+
+private theorem checked_in_range {x k : Int} (h : checked x = .ok (.int k)) :
+    minInt ≤ k ∧ k ≤ maxInt := by
+  unfold checked at h
+  split at h
+  · rename_i hx
+    injection h with h
+    injection h with h
+    subst h
+    exact hx
+  · cases h
 
 theorem prim_in_range (op : String) (a b : Int) (k : Int) (h : primOp op a b = .ok (.int k)) :
     minInt ≤ k ∧ k ≤ maxInt := by
-  sorry
+  unfold primOp at h
+  split at h
+  · exact checked_in_range h
+  split at h
+  · exact checked_in_range h
+  split at h
+  · exact checked_in_range h
+  split at h
+  · split at h
+    · cases h
+    · exact checked_in_range h
+  split at h
+  · simp [boolVal] at h
+  split at h
+  · simp [boolVal] at h
+  · cases h
 
 theorem over_application (n : Nat) (params : List String) (body : Expr) (cenv : Env)
     (xs ys : List Val) (hx : xs.length = params.length) (hy : ys ≠ []) :
@@ -29,6 +285,19 @@ theorem over_application (n : Nat) (params : List String) (body : Expr) (cenv : 
       (match eval n (bindParams params xs cenv) body with
        | .error e => .error e
        | .ok r => apply n r ys) := by
-  sorry
+  obtain ⟨a, as, hcons⟩ : ∃ a as, xs ++ ys = a :: as := by
+    cases hxy : xs ++ ys with
+    | nil => simp at hxy; exact absurd hxy.2 hy
+    | cons a as => exact ⟨a, as, rfl⟩
+  have htake : (xs ++ ys).take params.length = xs := by
+    rw [← hx]; exact List.take_left'  rfl
+  have hdrop : (xs ++ ys).drop params.length = ys := by
+    rw [← hx]; exact List.drop_left' rfl
+  have hlen : ¬ (xs ++ ys).length < params.length := by
+    simp [List.length_append]; omega
+  rw [hcons] at htake hdrop hlen ⊢
+  simp only [apply]
+  rw [if_neg hlen, htake, hdrop]
+  cases eval n (bindParams params xs cenv) body <;> rfl
 
 end GluonModel.Surf.Proofs
